@@ -176,6 +176,11 @@ def check_convert(case):
     results = {}
     with tempfile.TemporaryDirectory(prefix="c18-") as tmp:
         src = os.path.join(tmp, "data.dat")
+        if n % 2 == 0:
+            # the same path held another data set before and was converted once already (same process)
+            write_opf(src, list(range(1, n + 2)), [1] * (n + 1), [[1.5] * d for _ in range(n + 1)], 1)
+            for conv_, ext_ in ((cv.opf2txt, "txt"), (cv.opf2csv, "csv"), (cv.opf2json, "json")):
+                libcall(conv_, src, os.path.join(tmp, "old." + ext_))
         write_opf(src, ids, labels, feats, K)
         for ext, conv, load in (("txt", cv.opf2txt, ld.load_txt), ("csv", cv.opf2csv, ld.load_csv), ("json", cv.opf2json, ld.load_json)):
             out = os.path.join(tmp, "out." + ext)
